@@ -51,16 +51,15 @@ Fixpoint forallb2 {A B} (f : A -> B -> bool) (l1 : list A) (l2 : list B) : bool 
    current (used) state.  The code's UnmarshalJSON decodes the document, calls Clear() and then Put / Add every decoded
    binding / element (hashmap, linkedhashmap in document order, the sets, the bidi-maps): on the model and on the
    reference alike it IS the operation list Clear; Put ... / Clear; Add ..., so the theorems (stated for every operation
-   list) cover it.  The harness writes documents with distinct keys (and, for bidi-maps, distinct values), so the
-   order in which a Go map of the decoded members is ranged over does not matter. ---------- *)
+   list) cover it.  The documents are written by the harness, not by MarshalJSON: members in any order, repeated
+   elements (sets), repeated VALUES (bidi-maps), null, empty; member names are distinct.  hashmap: the order in which
+   the decoded Go map is ranged over does not matter; linkedhashmap: document order; bidi-maps: see [bact_ops]. ---------- *)
 Inductive mact := MOp (o : mop Z Z) | MLoad (doc : list (Z * Z)).
 Definition mact_ops (s : mact) : list (mop Z Z) :=
   match s with MOp o => [o] | MLoad d => MClear :: map (fun kv => MPut (fst kv) (snd kv)) d end.
 Inductive sact := SOp (o : sop Z) | SLoad (doc : list Z).
 Definition sact_ops (s : sact) : list (sop Z) := match s with SOp o => [o] | SLoad d => [SClear; SAdd d] end.
 Inductive bact := BOp (o : bop Z Z) | BLoad (doc : list (Z * Z)).
-Definition bact_ops (s : bact) : list (bop Z Z) :=
-  match s with BOp o => [o] | BLoad d => BClear :: map (fun kv => BPut (fst kv) (snd kv)) d end.
 Definition after {S O X} (step : S -> O -> S * X) (s : S) (ops : list O) : S := fst (run step s ops).
 
 (* ---------- maps ---------- *)
@@ -216,6 +215,21 @@ Definition bij_obs_ok (ku vu : list Z) (sn : bsnap) : bool :=
   && nodupZ (b_keys sn) && nodupZ (b_vals sn)
   && forallb (fun k => memZ k ku) (b_keys sn) && forallb (fun v => memZ v vu) (b_vals sn).
 
+(* UnmarshalJSON of a bidi-map ranges over a Go map of the decoded members and Puts each: the members are Put in SOME
+   order.  When values repeat, the result depends on that order: per value, the key Put last survives.  Every order is
+   a legal execution, so the reference must accept any of them: the members the snapshot still reports (Get k = v) are
+   Put last, the others first.  If the snapshot is the result of some order, this order reproduces it on model and
+   reference; if it is the result of NO order (a value bound to two keys, a lost value, ...), it differs from the
+   reference's result for this order, which is one of the legal results, and the step is a kind-2 disagreement. *)
+Definition bload_order (ku : list Z) (sn : bsnap) (doc : list (Z * Z)) : list (Z * Z) :=
+  let win kv := match lookup_obs ku (b_gets sn) (fst kv) with Some (Some v) => v =? snd kv | _ => false end in
+  filter (fun kv => negb (win kv)) doc ++ filter win doc.
+Definition bact_ops (ku : list Z) (sn : bsnap) (s : bact) : list (bop Z Z) :=
+  match s with
+  | BOp o => [o]
+  | BLoad d => BClear :: map (fun kv => BPut (fst kv) (snd kv)) (bload_order ku sn d)
+  end.
+
 Definition hb_model := hb_step Z.eqb Z.eqb (@ins_front Z Z) (@ins_front Z Z).
 Definition tb_model (ck cv : cmpsel) := rb_bidi_step (cmp_of ck) (cmp_of cv) 0 0.       (* two red-black trees, C01/Containers.v *)
 Definition bij_spec := bij_step Z.eqb Z.eqb.
@@ -223,16 +237,16 @@ Definition bij_spec := bij_step Z.eqb Z.eqb.
 Definition hb_check (ku vu : list Z) (st : bidi Z Z * list (Z * Z)) (x : bact * bsnap) :=
   let '(m, o) := st in
   let '(op, sn) := x in
-  let m' := after hb_model m (bact_ops op) in
-  let o' := after bij_spec o (bact_ops op) in
+  let m' := after hb_model m (bact_ops ku sn op) in
+  let o' := after bij_spec o (bact_ops ku sn op) in
   ((m', o'), kind_of (bobs_ok hb_model false m' ku vu sn)
                      (bobs_ok bij_spec false o' ku vu sn && bij_obs_ok ku vu sn)).
 
 Definition tb_check (ck cv : cmpsel) (ku vu : list Z) (st : T1.tb_state Z Z * list (Z * Z)) (x : bact * bsnap) :=
   let '(m, o) := st in
   let '(op, sn) := x in
-  let m' := after (tb_model ck cv) m (bact_ops op) in
-  let o' := after bij_spec o (bact_ops op) in
+  let m' := after (tb_model ck cv) m (bact_ops ku sn op) in
+  let o' := after bij_spec o (bact_ops ku sn op) in
   ((m', o'), kind_of (cmpsel_ok ck && cmpsel_ok cv && bobs_ok (tb_model ck cv) true m' ku vu sn)
                      (bobs_ok bij_spec false o' ku vu sn && bij_obs_ok ku vu sn
                       && sorted_by (cmp_of ck) (b_keys sn) && sorted_by (cmp_of cv) (b_vals sn))).
